@@ -205,6 +205,10 @@ def to_behaviour(hist, bid, padmap):
 
 
 def _phase(pid, tier):
+    if pid == "C03":
+        # verdict-free: the transfer of the written files to the billing domain, against spec/Cgf.tla
+        from . import fam_cgf
+        return fam_cgf.phase(tier)
     if pid != "C10":
         return None
     from . import fam_conc
